@@ -707,6 +707,31 @@ def handover_rule(ctx, facts, cfg):
                 break
             why = '%s does not run the explicit reset of its work argument before every Ok return' % core.short(q)
         if not good:
+            # direct form: `work.reset(..)` (infallible, after the validation) on the local that the codec stores
+            from . import roles as roles_mod
+            full_reset = roles_mod.roles(facts).fn.get(('enc' if work_adt == roles_mod.ENC_WORK else 'dec') + '.reset')
+            for cb, t in body.calls():
+                if t['callee'].get('path') != full_reset or not t['args'] or not ok_blocks:
+                    continue
+                c = body.canon_op(t['args'][0], expand_named=False)
+                if not (c[0] == 'ref' and c[1][0] == 'var' and body.local_ty(c[1][2]) == work_adt):
+                    continue
+                wl = c[1][2]
+                if not all(body.dominates(cb, ob) for ob in ok_blocks):
+                    continue
+                stored = False
+                for bb in range(body.n):
+                    for st in body.blocks[bb]['stmts']:
+                        if st['k'] == 'assign' and st['rv']['k'] == 'agg' and st['rv'].get('adt') == fn.impl_self_adt:
+                            d = dict(zip(st['rv']['fields'], st['rv']['ops']))
+                            c2 = body.canon_op(d.get('work'), expand_named=False) if d.get('work') else None
+                            if c2 and c2[0] == 'var' and c2[2] == wl:
+                                stored = True
+                if stored:
+                    good = True
+                    ctx.ok(R, '%s@%s' % (p, cfg), {'via': 'direct call', 'reset_at': t['line']})
+                    break
+        if not good:
             # by-value form: `let work = Self::prepare(.., work);` -- the helper takes the work object, runs the explicit reset on
             # it and gives it back; what it returns is what the codec stores
             from . import roles as roles_mod
